@@ -76,6 +76,10 @@ def gen(rng: Any, prop: str, tier: str) -> dict[str, Any]:
             g.m.close(sid)
             closed.add(sid)
             continue
+        if rng.random() < 0.01:
+            # a self-contained failure scenario on an instance of its own (what it needs lies behind C03's known findings here)
+            g.ops.append({"s": sid, "k": "episode", "prop": "C07", "name": rng.choice(["stale-schema-after-use-database", "use-schema-after-foreign-drop"])})
+            continue
         if use_nop and rng.random() < 0.12:
             # a statement the instance is configured to no-op: succeeds with the status row, and resets cursor.sqlstate like any execute
             g.ops.append({"s": sid, "k": "exec", "cur": rng.choice([0, 0, 1]), "sql": rng.choice(["CALL my_proc()", "call other_proc(1, 'x')"]), "st": {"t": "const", "rows": [["Statement executed successfully."]], "label": "nop"}})
